@@ -24,7 +24,7 @@ def cases(tier, seed):
     rng = np.random.default_rng([seed, 1717])
     n = 90 if tier == "quick" else 12000
     for i in range(n):
-        yield {"mesh": gen.random_mesh(rng, 120 if tier == "quick" else 800, families=["voronoi", "merged", "merged", "polyhedron", "delaunay", "cubed_sphere"]),
+        yield {"mesh": gen.random_mesh(rng, 120 if tier == "quick" else 800, families=["voronoi", "merged", "merged", "polyhedron", "delaunay", "cubed_sphere", "sample"]),
                "extra_width": int(rng.choice([0, 0, 2])), "dseed": int(rng.integers(0, 10**6)),
                "dtype": str(rng.choice(["float64", "float32", "int64", "bool"])), "lead": [int(x) for x in rng.integers(1, 4, size=int(rng.integers(0, 3)))],
                "layout": str(rng.choice(["C", "C", "F", "T", "strided"])), "big_offset": bool(rng.random() < 0.25)}
